@@ -24,8 +24,10 @@ class Bit(object):
         return 'Dep(D=%d,M=%s,S=%s)' % (len(self.D), sorted(self.M), sorted(self.S))
 
 
-def _mk(kind, sup=(), tt=(), D=frozenset(), M=frozenset(), S=frozenset()):
-    key = (kind, sup, tt, D, M, S)
+def _mk(kind, sup=(), tt=(), D=frozenset(), M=frozenset(), S=frozenset(), tag=None):
+    # `tag` keeps apart abstract elements whose (D, M, S) carry no trace of their operands (wide XOR): the pseudo-literal
+    # naming a bit must name one formula
+    key = (kind, sup, tt, D, M, S, tag)
     b = _INTERN.get(key)
     if b is None:
         b = Bit()
@@ -209,10 +211,52 @@ _MEMO = {}
 _NEG = {}
 
 
-def _contradict(M):
+CONJ = {}      # serial of a conjunction bit -> frozenset of literals whose conjunction is *equivalent* to it
+CONJ_CAP = 24
+
+
+def _conjset(x):
+    if x.kind == 'd':
+        c = CONJ.get(x.n)
+        if c is not None:
+            return c
+    if x.kind == 's' and len(x.sup) == 1:
+        return frozenset([(x.sup[0], x.tt == (0, 1))])
+    return frozenset([(('#', x.n), True)])
+
+
+def _contradict(M, must=True):
+    """must=True: M is a set of literals that all hold (conjunction definitions may be used); must=False: a set of literals each of
+    which is sufficient - only a literal together with its negation is conclusive there."""
+    negs = None
     for (v, p) in M:
         if (v, not p) in M:
             return True
+        if must and not p and v[0] == '#' and v[1] in CONJ:
+            negs = negs or []
+            negs.append(v[1])
+    if negs:
+        # "the conjunction named n is false" although every one of its conjuncts is required; a required conjunction
+        # requires its own conjuncts (closure through the definitions)
+        Mx = set(M)
+        work = [v[1] for (v, p) in M if p and v[0] == '#' and v[1] in CONJ]
+        seen = set()
+        while work:
+            n = work.pop()
+            if n in seen:
+                continue
+            seen.add(n)
+            for l in CONJ[n]:
+                if l not in Mx:
+                    Mx.add(l)
+                    if l[1] and l[0][0] == '#' and l[0][1] in CONJ:
+                        work.append(l[0][1])
+        for n in negs:
+            if CONJ[n] <= Mx:
+                return True
+        for (v, p) in Mx:
+            if (v, not p) in Mx:
+                return True
     return False
 
 
@@ -235,7 +279,7 @@ def _dep(D, M, S, keep=()):
     if _contradict(M):
         return C0
     S = frozenset(S)
-    if _contradict(S):
+    if _contradict(S, must=False):
         return C1
     return _mk('d', D=frozenset(D), M=_cap(M, keep), S=_cap(S, keep))
 
@@ -289,6 +333,7 @@ def suffx(a):
 
 
 def _band(a, b):
+    a0, b0 = a, b
     if a.kind == 's' and b.kind == 's':
         sup = set(a.sup) | set(b.sup)
         if len(sup) <= K:
@@ -315,7 +360,12 @@ def _band(a, b):
     M = ma | mb
     if _contradict(M):
         return C0
-    return _dep(rawvars(a) | rawvars(b), M, sa & sb, keep=(selflit(a), selflit(b)))
+    r = _dep(rawvars(a) | rawvars(b), M, sa & sb, keep=(selflit(a), selflit(b)))
+    if r.kind == 'd' and r.n not in CONJ:
+        cj = _conjset(a0) | _conjset(b0)      # the operands as given (a restricted operand is equivalent only under the other)
+        if len(cj) <= CONJ_CAP:
+            CONJ[r.n] = cj
+    return r
 
 
 def bor(a, b):
@@ -348,7 +398,7 @@ def _bor(a, b):
     if mb & sa:
         return a
     S = sa | sb
-    if _contradict(S):
+    if _contradict(S, must=False):
         return C1
     return _dep(rawvars(a) | rawvars(b), ma & mb, S, keep=(selflit(a), selflit(b)))
 
@@ -367,7 +417,7 @@ def bxor(a, b):
     if a.kind == 's' and b.kind == 's' and len(set(a.sup) | set(b.sup)) <= K:
         r = _small(set(a.sup) | set(b.sup), lambda asg: _ev(a, asg) ^ _ev(b, asg))
     else:
-        r = _dep(rawvars(a) | rawvars(b), (), ())
+        r = _mk('d', D=frozenset(rawvars(a) | rawvars(b)), tag=('^',) + tuple(sorted((a.n, b.n))))
     _MEMO[key] = r
     return r
 
